@@ -38,7 +38,10 @@ AutoScripts == <<
   << <<"connect", 300, "M">>, <<"connect", 200, "M">>, <<"connect", 45, "M">>, <<"auto">>, <<"connect", 10, "M">>, <<"connect", 10, "M">>, <<"auto">>,
      <<"lock", "a", 270>>, <<"connect", 45, "M">>, <<"auto">>, <<"unlock", "a">>, <<"auto">>, <<"connect", 1, "M">>, <<"manual", 600>> >>,
   << <<"connect", 300, "M">>, <<"connect", 200, "M">>, <<"lock", "a", 250>>, <<"lock", "b", 262>>, <<"connect", 45, "M">>, <<"connect", 45, "M">>, <<"auto">>, <<"reorg", 2, "M">>,
-     <<"connect", 10, "M">>, <<"unlock", "a">>, <<"auto">>, <<"connect", 10, "M">>, <<"unlock", "b">>, <<"auto">> >> >>
+     <<"connect", 10, "M">>, <<"unlock", "a">>, <<"auto">>, <<"connect", 10, "M">>, <<"unlock", "b">>, <<"auto">> >>,
+  \* files with two blocks at the bottom of the chain and a lock whose buffer ends between the two blocks of a file (3 | 4)
+  << <<"connect", 20, "l">>, <<"lock", "a", 14>>, <<"connect", 300, "M">>, <<"connect", 200, "M">>, <<"connect", 45, "M">>, <<"connect", 45, "M">>, <<"auto">>,
+     <<"lock", "a", 16>>, <<"connect", 1, "M">>, <<"auto">>, <<"unlock", "a">>, <<"auto">>, <<"connect", 1, "M">>, <<"auto">> >> >>
 \* --- scaled-down model: unit-size arithmetic
 SmallSizeOf == [a |-> 2, b |-> 5, c |-> 9]
 SmallConnect == {<<1, "a">>, <<1, "b">>, <<1, "c">>, <<3, "a">>, <<4, "b">>}
